@@ -64,7 +64,7 @@ enum Item {
 const PROG_OPS: &[&str] = &["decode", "exec-own", "exec-shared", "prune-shared", "infer", "human", "walk-shared", "c-pipeline", "nested-contexts"];
 const POL_OPS: &[&str] = &["policy-cmr", "policy-satisfy", "policy-sort"];
 const TEXT_OPS: &[&str] = &["parse"];
-const TY_OPS: &[&str] = &["types", "values"];
+const TY_OPS: &[&str] = &["types", "values", "fresh-names"];
 
 fn ops_of(it: &Item) -> &'static [&'static str] {
     match it {
@@ -233,6 +233,26 @@ fn run_op(it: &Item, op: &str) -> String {
                 let f = ty::to_final(&t.t);
                 // types built on another thread compare equal to those built here (thread-local precomputed tables)
                 format!("{}|{}|eq={}|{}", f.tmr(), f.bit_width(), *f == *t.shared_final, t.shared_final.tmr())
+            }
+            "fresh-names" => {
+                // free type variables get their names from a process-wide counter: within one context
+                // every name must be new, whatever other threads are doing
+                use simplicity::node::{ConstructNode, WitnessConstructible};
+                Context::with_context(|ctx| {
+                    let mut seen = std::collections::HashSet::new();
+                    let mut keep = Vec::new();
+                    for _ in 0..48 {
+                        let w: Arc<ConstructNode> = WitnessConstructible::witness(&ctx, None);
+                        let a = w.arrow();
+                        for name in [format!("{}", a.source), format!("{}", a.target)] {
+                            if !seen.insert(name.clone()) {
+                                return format!("type variable name `{}` handed out twice in one context", name);
+                            }
+                        }
+                        keep.push(w);
+                    }
+                    "96 fresh names, all distinct".to_string()
+                })
             }
             "values" => {
                 let mut tf = ty::ToFinal::new();
